@@ -68,6 +68,7 @@ def run(tier, seed):
     if not ok:
         chk.violation("broken-obligation", "pause-table-translator", dict(error=msg), no_input=True)
     gate = vlib.coq_gate(PROP, extra_targets=["Model/UnitEnv.vo", "gen/GenPauseTable.vo"])
+    life_gate = U.life_gate(chk) if ok else None
     if not gate["ok"]:
         # the certificate (or another obligation) no longer checks for the regenerated table:
         # look for a concrete failing request sequence on the regenerated model
@@ -90,20 +91,36 @@ def run(tier, seed):
         return chk.finish(gate, "make -C coq Properties/C12.vo", [])
     r = vlib.rng_for(seed, PROP)
     scs = gen(r, 60 if tier == "thorough" else 18)
+    life_scs = []
     if U.check_family(chk, rig, scs, U.oracle_C12, "c12"):
-        U.check_family(chk, rig, info_scenarios(), oracle_info, "c12i")
+        if U.check_family(chk, rig, info_scenarios(), oracle_info, "c12i"):
+            # the whole life of a unit: SIGTSTP / SIGCONT landing in the retry delay (or outstanding at the
+            # hand-over from an attempt to its delay), information requests in each of the four wait loops
+            life_scs = U.life_stage(chk, rig, [U.life_stop_in_delay, U.life_info], "c12l",
+                                    vlib.rng_for(seed, PROP + ":life"), tier == "thorough")
+            if tier == "thorough":
+                # finding F16 (probabilistic): an attempt with retries left ends between its unit's handling
+                # of Stop and nextest stopping itself
+                U.handover_race_stage(chk, rig)
     for sc in scs[:3]:
         chk.sample(sc)
     chk.sample(dict(pause_table=msg.splitlines()[3:11] if ok else None))
+    for sc in life_scs[:2]:
+        chk.sample(sc)
+    if life_gate is not None:
+        gate = U.merge_gates(gate, life_gate)
     distinct = len({json.dumps([s["period"], s["ta"], s["grace"], s["dur"], s["on_term"], s["sigs"]]) for s in scs})
     chk.assumptions = [
         "the syn translator reads the Stop/Continue arms correctly (an arm it cannot translate is an error)",
         "the leak-drain loop ignores stop/continue by design (known finding F12)",
+        "whole-life theorems (Properties/UnitLife.v) exclude the class 'a phase begins, or the leak drain is sent a "
+        "Stop, while a Stop is owed its Continue' (refuted inside it by closed examples)",
         "timing tolerance 0.45 time units; time-dependent failures must reproduce with the unit doubled"]
     return chk.finish(gate, "pause_table > gen/GenPauseTable.v; make -C coq Properties/C12.vo (re-checks "
                             "Proofs/PauseCert.v by vm_compute over the whole abstract state space) + Print Assumptions",
                       ["Coq 8.16.1 kernel + vm_compute", "harness/src/bin/pause_table.rs (translator)",
-                       "Model/UnitTimers.v, Model/AbsTimers.v, Model/UnitEnv.v", "lib/units_e2e.py, e2e/puppet.py"],
+                       "Model/UnitTimers.v, Model/AbsTimers.v, Model/UnitEnv.v, Model/UnitLife.v, Model/UnitLifeEnv.v",
+                       "lib/units_e2e.py, e2e/puppet.py"],
                       dict(evaluations=chk.counts.get("e2e_runs", 0), distinct_nontrivial=distinct,
                            rule="scenario = (slow-timeout config, duration, reaction, times of SIGTSTP/SIGCONT/"
                                 "shutdown/info signals); all contain a stop/continue pair or an info request",
